@@ -71,6 +71,9 @@ struct vpair_opts {
     bool plan_during_setup;       /* injection plans already active while establishing */
     int64_t user_timeout;         /* tcp.user_timeout for tcp based transports (0: leave default) */
     const char *extra_attr_name;  /* optional extra string attr for both ends */
+    struct xcm_attr_map *conn_attrs, *server_attrs, *accept_attrs;   /* optional, added to the creation maps */
+    const char *server_addr;      /* optional: use this address instead of the default loopback one */
+    const char *connect_addr;     /* optional: the client connects to this address instead of the server's local address */
 };
 /* establish client<->accepted over transport tp in non-blocking mode.  server is kept
  * open in *server.  returns 0, or -1 with a reason in why */
